@@ -5,6 +5,7 @@ import DimodProofs.VarsSteps
 import DimodProofs.VarsMore
 import DimodProofs.VarsWhole
 import DimodProofs.VarsKeys
+import DimodProofs.VarsKeysRelabel
 
 /-! # C13 — Variables is an order-preserving bijection between labels and indices
 
@@ -394,6 +395,32 @@ theorem object_history_factors (k : KState) (h : k.toV.Inv) (ops : List KState.K
   ⟨KState.history_factors ops k h, KState.step_factors k h, KState.index?_factors k h, KState.autoLabel_factors k h,
     KState.abs_factors k⟩
 
+/-- `_relabel(mapping)` and `_remove(v)` over objects (`iter_safe_relabels` / `resolve_label_conflict` with `==`
+    dictionary lookups, mapping keys and values numeric aliases or not) factor through `canon`: same accept / reject,
+    and the resulting object-level state abstracts to the label-level result of the canonicalised mapping -/
+theorem object_relabel_remove_factor (k : KState) (h : k.toV.Inv) :
+    (∀ m : KState.KDict, ((m.map KState.cc).map Prod.fst).Nodup →
+      (k.relabel m).map KState.toV = k.toV.relabel (m.map KState.cc)) ∧
+    (∀ v, (k.remove v).map KState.toV = k.toV.remove (PyKey.canon v)) :=
+  ⟨fun m hk => KState.relabel_factors k h m hk, KState.remove_factors k h⟩
+
+/-- **every mutator over objects**: histories of append / auto-append / pop / clear / relabel-as-integers / relabel /
+    remove on Python objects abstract step by step (flags included) to the label-level history of the canonicalised
+    operations — to which `history_refines` applies -/
+theorem object_history_all_mutators (k : KState) (h : k.toV.Inv) (ops : List KState.KOp2)
+    (hwf : ∀ op ∈ ops, op.toOp.WF) :
+    ((ops.foldl (fun k op => (k.step2 op).1) k).toV =
+        (ops.map KState.KOp2.toOp).foldl (fun s op => (s.step op).1) k.toV ∧
+      (ops.foldl (fun k op => (k.step2 op).1) k).toV.Inv) ∧
+    (∀ op : KState.KOp2, op.toOp.WF → ((k.step2 op).1.toV, (k.step2 op).2) = k.toV.step op.toOp) :=
+  ⟨KState.history2_factors ops k h hwf, fun op hop => KState.step2_factors k h op hop⟩
+
+/-- a swap through aliases: `{1.0: "a", "a": True}` on `["a", np.int64(1)]` -/
+example : (KState.mk [(0, .str "a")] [(.str "a", 0)] 2).toV.Inv ∧
+    ((KState.mk [(0, .str "a")] [(.str "a", 0)] 2).relabel [(.float 1, .str "a"), (.str "a", .bool true)]).map
+      (fun k => k.toV.abs) = some [.int 1, .str "a"] :=
+  ⟨VState.inv_of_invCheck _ (by decide +kernel), by decide +kernel⟩
+
 /-- hence membership / `count` of any alias is list membership of its canonical label -/
 theorem alias_count_iff_mem (k : KState) (h : k.toV.Inv) (v : PyKey) :
     k.count v = true ↔ PyKey.canon v ∈ k.toV.abs := by
@@ -430,5 +457,7 @@ section Axioms
 #print axioms C13.key_equality_is_canon
 #print axioms C13.primitives_factor_through_canon
 #print axioms C13.object_history_factors
+#print axioms C13.object_history_all_mutators
+#print axioms C13.object_relabel_remove_factor
 #print axioms C13.relabel_raises_iff_merge
 end Axioms
